@@ -184,6 +184,20 @@ void run_sequence(const std::string& id, const std::vector<std::vector<std::stri
          const unsigned i = std::stoul(c.at(2)); const double v = hexd(c.at(3));
          T.setv.at(c[1]).first(s.h, i, v); T.setv.at(c[1]).second(*s.m, i, v);
          ev.i("i1", i).num("v", v);
+      } else if (op == "copypoles") {
+         // the spectrum just calculated becomes the set of pole masses (every value read through a getter and written
+         // through a setter, on the C handle and on the mirror): afterwards a conversion to the on-shell scheme is meaningful
+         mexc = vm::exc_class([&] {
+            T.set.at("MSvmL_pole").first(s.h, T.get.at("MSvmL").first(s.h)); T.set.at("MSvmL_pole").second(*s.m, T.get.at("MSvmL").second(*s.m));
+            T.set.at("MAh_pole").first(s.h, T.get.at("MAh").first(s.h)); T.set.at("MAh_pole").second(*s.m, T.get.at("MAh").second(*s.m));
+            for (unsigned i = 0; i < 2; ++i) {
+               T.setv.at("MSm_pole").first(s.h, i, T.getv.at("MSm").first(s.h, i)); T.setv.at("MSm_pole").second(*s.m, i, T.getv.at("MSm").second(*s.m, i));
+               T.setv.at("MCha_pole").first(s.h, i, T.getv.at("MCha").first(s.h, i)); T.setv.at("MCha_pole").second(*s.m, i, T.getv.at("MCha").second(*s.m, i));
+            }
+            for (unsigned i = 0; i < 4; ++i) {
+               T.setv.at("MChi_pole").first(s.h, i, T.getv.at("MChi").first(s.h, i)); T.setv.at("MChi_pole").second(*s.m, i, T.getv.at("MChi").second(*s.m, i));
+            }
+         });
       } else if (op == "verbose") {
          gm2calc_mssmnofv_set_verbose_output(s.h, std::stoi(c.at(1))); s.m->set_verbose_output(std::stoi(c.at(1)) != 0);
       } else if (op == "get") {
